@@ -114,6 +114,8 @@ def sflTolRejectOracle (dflt : Aff) (init : Option Status) (rows : List Tx) (i :
 /-- Compare every Sell row of the implementation with the declarative rule. -/
 partial def sflOracle (dflt : Aff) (init : Option Status) (rows : List (Tx × ImplDelta)) : List (String × String) :=
   let txs := rows.map (·.1)
+  let mag := rows.foldl (fun m (_, x) =>
+    [rabs (x.pre.acb.getD 0), rabs (x.post.acb.getD 0), rabs (x.gain.getD 0)].foldl (fun m v => if m < v then v else m) m) 0
   let rec go (i : Nat) : List (Tx × ImplDelta) → List (String × String)
     | [] => []
     | (t, x) :: rest =>
@@ -130,7 +132,7 @@ partial def sflOracle (dflt : Aff) (init : Option Status) (rows : List (Tx × Im
              | none => if rabs e.loss ≤ 1 / pow10 9 then [] else
                 [("C02", s!"row {i}: the rule denies {ratToString e.loss} ({ratToString e.num}/{ratToString e.den}), implementation reports no superficial loss")]
              | some s =>
-               if !closeAt (rabs (x.pre.acb.getD 0)) s.loss e.loss then [("C02", s!"row {i}: superficial loss {ratToString s.loss}, the rule says {ratToString e.loss}")]
+               if !closeAt mag s.loss e.loss then [("C02", s!"row {i}: superficial loss {ratToString s.loss}, the rule says {ratToString e.loss}")]
                else if !close (s.num / s.den) (e.num / e.den) then [("C02", s!"row {i}: ratio {ratToString s.num}/{ratToString s.den}, the rule says {ratToString e.num}/{ratToString e.den}")]
                else [])
           | none => []
